@@ -31,7 +31,7 @@ pub fn plan(p: &EpParams) -> Plan {
     Plan {
         episodes: n,
         exhaustive: false,
-        rule: "seeded walks of 25-50 steps over 2 topic names x 3 subscription names: create/delete/re-create of topics and subscriptions, publishes, pulls with acks, advances past the deadline, and races (DeleteSubscription || Publish, DeleteTopic || Publish, CreateSubscription || Publish) resolved by observation; exact reference model after every step and a cross-view check (ListTopicSubscriptions vs ListSubscriptions vs model) at every quiescent point. Non-trivial: >=1 delete followed by re-creation of the same name with a cross-view check after it. Distinct: abstract step sequence.".into(),
+        rule: "seeded walks of 25-50 steps over 2 topic names x 3 subscription names: create/delete/re-create of topics and subscriptions, publishes, pulls with acks, advances past the deadline, and races (DeleteSubscription || Publish, DeleteTopic || Publish, CreateSubscription || Publish, CreateSubscription || DeleteSubscription of the same name - the delete sometimes abandoned by its client, the topic sometimes kept busy -, crossing deletes, requests abandoned after a few turns) resolved by observation; exact reference model after every step and a cross-view check (ListTopicSubscriptions vs ListSubscriptions vs model) at every quiescent point. Non-trivial: >=1 delete followed by re-creation of the same name with a cross-view check after it. Distinct: abstract step sequence.".into(),
     }
 }
 
@@ -284,13 +284,33 @@ async fn episode(p: &EpParams) -> EpReport {
                 if !seq.m.subs.contains_key(&s) && seq.m.topics.contains_key(&t) {
                     let (c1, c2) = (Cx::new(&w, 5), Cx::new(&w, 6));
                     let (tp, sp, sp2) = (t.clone(), s.clone(), s.clone());
+                    // (half of the time the topic is kept busy, so that the create stays between
+                    // "registered" and "attached" for a while)
+                    if rng.chance(1, 2) {
+                        for i in 0..rng.range(8, 30) {
+                            let (c, t2) = (Cx::new(&w, 160 + i as u32), t.clone());
+                            tokio::spawn(async move {
+                                let _ = c.list_topic_subs(&t2, 0, "").await;
+                            });
+                        }
+                    }
                     let a = tokio::spawn(async move { c1.create_sub(&sp, &tp, 10).await });
+                    let wait_b = rng.range(1, 4);
                     let b = tokio::spawn(async move {
-                        for _ in 0..3 {
+                        for _ in 0..wait_b {
                             tokio::task::yield_now().await;
                         }
                         c2.delete_sub(&sp2).await
                     });
+                    // (a third of the time the deleting client gives up a few turns later: a delete
+                    // nobody waits for any more either happens or does not, the create is not its victim)
+                    if rng.chance(1, 3) {
+                        for _ in 0..(wait_b + rng.below(6)) {
+                            tokio::task::yield_now().await;
+                        }
+                        b.abort();
+                        rep.inc("racing_delete_abandoned");
+                    }
                     // half of the time a third client creates the name again right away (the first
                     // incarnation may still be on its way out: whatever that deletion still does by
                     // name must not hit the new incarnation)
